@@ -36,6 +36,30 @@ pub fn test_matrix_score_squares(qr: &QRCode) -> u32 {
     matrix_score_squares(qr)
 }
 
+#[cfg(feature = "verif-hooks")]
+#[doc(hidden)]
+pub fn verif_line(l: &[Module]) -> (u32, u32) {
+    line(l)
+}
+
+#[cfg(feature = "verif-hooks")]
+#[doc(hidden)]
+pub fn verif_squares(qr: &QRCode) -> u32 {
+    matrix_score_squares(qr)
+}
+
+#[cfg(feature = "verif-hooks")]
+#[doc(hidden)]
+pub fn verif_dark(qr: &QRCode) -> u32 {
+    dark_module_score(qr)
+}
+
+#[cfg(feature = "verif-hooks")]
+#[doc(hidden)]
+pub fn verif_pattern_and_line(qr: &QRCode, qr_transpose: &QRCode) -> (u32, u32, u32) {
+    matrix_pattern_and_line(qr, qr_transpose)
+}
+
 /// Computes scores for squares, any 2x2 square (black or white)
 /// add 3 to the score
 ///
